@@ -13,6 +13,8 @@ import GocoinV.Proofs.C14Curve
 import GocoinV.Proofs.C14Norm
 import GocoinV.Proofs.C14Wif
 import GocoinV.Proofs.C14Getpass
+import GocoinV.Proofs.C14Xpub
+import GocoinV.Proofs.C14Lookup
 namespace GocoinV.Props.C14
 open GocoinV Proofs.C14 HD WalletKeys
 
@@ -224,13 +226,9 @@ theorem pub_commutes (C : WalletCrypto) (w : HDWallet) (k i : Nat)
   unfold pub child
   simp only [hnpub, Bool.false_eq_true, ↓reduceIte, List.length_cons, beBytes_length,
     ne_eq, not_true_eq_false, List.drop_succ_cons, List.drop_zero, publicFromPrivate, hnpriv', hpub', hardenedFrom_eq,
-    h31, ser33_length, false_or, Nat.not_le.mpr hi2, deriveNextPublic, hha]
+    h31, ser33_length, false_or, Nat.not_le.mpr hi2, baseMultiplyAdd, hha]
   rw [hval, hsum]
-  have hhead : ¬ ((Secp.ser33 (some P)).headD 0 ≠ 2 ∧ (Secp.ser33 (some P)).headD 0 ≠ 3) := by
-    intro ⟨h2, h3⟩; rcases ser33_head P with h | h
-    · exact h2 h
-    · exact h3 h
-  simp only [hhead, ↓reduceIte, hparse]
+  simp only [hparse]
   cases hsumv : Secp.add (Secp.mul (beVal (ha.take 32)) Secp.G) (some P) with
   | none => simp [serPoint]
   | some Q => simp [serPoint]
@@ -301,6 +299,106 @@ theorem child_pub_outside_iff (C : WalletCrypto) (w : HDWallet) (k i : Nat) (P :
 example : PubWF { chCode := List.replicate 32 0, key := Secp.ser33 Secp.G, pfx := Gen.HDConsts.pfxPublic,
                   idx := 0, checksum := [0, 0, 0, 0], depth := 0 } (Secp.Gx, Secp.Gy) ∧
     Secp.mul 1 Secp.G = some (Secp.Gx, Secp.Gy) := ⟨⟨by decide, by decide, rfl⟩, by decide +kernel⟩
+
+/-! ### extended public keys whose key bytes are no curve point (finding `xpub-noncanonical-x`, fixed) -/
+
+/-- Import checks the point (BIP32: "verify whether the X coordinate in the public key data corresponds to a
+    point on the curve"): whatever `StringWallet` accepts under a PUBLIC version has 33 key bytes that strict SEC1
+    parsing reads as a point P of the curve — first byte 02/03, x < p, x³+7 a square. True of the code since the
+    `fix:` commit (before, `ByteCheck` ignored `ParsePubkey`'s verdict and 02‖(p+1) was imported). -/
+theorem xpub_import_is_curve_point (C : WalletCrypto) (s : Bytes) (w : HDWallet)
+    (h : stringWallet C s = .ok w) (hpub : isPublicPfx w.pfx = true) :
+    w.key.length = 33 ∧ ∃ P, Secp.parsePubkey w.key = some P ∧ Secp.onCurve (some P) = true := by
+  obtain ⟨hl, P, hP⟩ := parseBytes_pub_point C _ w h hpub
+  exact ⟨hl, P, hP, parse33_onCurve _ P hl hP⟩
+
+/-- … and the refusal, stated on the bytes: 82 bytes with a public version whose key bytes do not parse are
+    refused with "Invalid public key" — before the checksum is even looked at. -/
+theorem xpub_noncanonical_refused (C : WalletCrypto) (dbin : Bytes) (hl : dbin.length = 82)
+    (hpub : isPublicPfx (beVal (dbin.take 4)) = true)
+    (hk : Secp.parsePubkey ((dbin.drop 45).take 33) = none) : parseBytes C dbin = .error .pubkey := by
+  unfold parseBytes byteCheck
+  simp [hl, hpub, hk]
+
+/-- non-vacuity, and the witnesses of the finding: 02‖(p+1), 03‖(p+1), 02‖(2²⁵⁶−1) (x ≥ p; gocoin used to reduce
+    x mod p and accept) and 02‖5 (x < p, x³+7 not a square) do not parse -/
+example : Secp.parsePubkey (2 :: beBytes 32 (Secp.p + 1)) = none ∧ Secp.parsePubkey (3 :: beBytes 32 (Secp.p + 1)) = none ∧
+    Secp.parsePubkey (2 :: beBytes 32 (2 ^ 256 - 1)) = none ∧ Secp.parsePubkey (2 :: beBytes 32 5) = none := by
+  decide +kernel
+
+/-- `Child` on a public extended key whose key bytes are no curve point derives NOTHING: it panics
+    ("HDWallet.Child(): Invalid public key"). Before the `fix:` commit it returned a child whose key was 33 zero
+    bytes, without any error. -/
+theorem child_pub_invalid_panics (C : WalletCrypto) (w : HDWallet) (i : Nat)
+    (hpub : isPublicPfx w.pfx = true) (hlen : w.key.length = 33) (hi : i < 2 ^ 31)
+    (hk : Secp.parsePubkey w.key = none) : child C w i = .error .panic := by
+  rw [child_pub_cases C w i hpub (public_not_private _ hpub) hlen hi, hk]
+
+/-- non-vacuity: the extended public key holding 02‖(p+1) -/
+example (C : WalletCrypto) :
+    child C { chCode := List.replicate 32 0, key := 2 :: beBytes 32 (Secp.p + 1), pfx := Gen.HDConsts.pfxPublic,
+              idx := 0, checksum := [0, 0, 0, 0], depth := 0 } 0 = .error .panic :=
+  child_pub_invalid_panics C _ 0 (by decide) (by decide) (by decide) (by decide +kernel)
+
+/-- Conversely, whenever `Child` on a public extended key (33 key bytes, non-hardened index) returns a key at all,
+    the parent bytes parse as a curve point P, and the child key is serP(Q) for the FINITE curve point
+    Q = I_L·G + P — which strict parsing reads back as Q. In particular the all-zero key is never returned. -/
+theorem child_pub_result_is_point (C : WalletCrypto) (w w' : HDWallet) (i : Nat)
+    (hpub : isPublicPfx w.pfx = true) (hlen : w.key.length = 33) (hi : i < 2 ^ 31)
+    (h : child C w i = .ok w') :
+    ∃ P Q, Secp.parsePubkey w.key = some P ∧
+      Secp.add (Secp.mul (beVal ((C.hmac512 w.chCode (w.key ++ beBytes 4 i)).take 32)) Secp.G) (some P) = some Q ∧
+      w'.key = Secp.ser33 (some Q) ∧ Secp.onCurve (some Q) = true ∧ Secp.parsePubkey w'.key = some Q := by
+  rw [child_pub_cases C w i hpub (public_not_private _ hpub) hlen hi] at h
+  cases hP : Secp.parsePubkey w.key with
+  | none => rw [hP] at h; cases h
+  | some P =>
+    rw [hP] at h
+    simp only [] at h
+    cases hQ : Secp.add (Secp.mul (beVal ((C.hmac512 w.chCode (w.key ++ beBytes 4 i)).take 32)) Secp.G) (some P) with
+    | none => rw [hQ] at h; cases h
+    | some Q =>
+      rw [hQ] at h
+      simp only [Except.ok.injEq] at h
+      have hon : Secp.onCurve (some Q) = true := by
+        rw [← hQ]; exact add_onCurve _ _ (mul_G_onCurve _) (parse33_onCurve _ P hlen hP)
+      subst h
+      exact ⟨P, Q, rfl, hQ, rfl, hon, parse_ser33 Q hon⟩
+
+/-- "Extended keys re-import to the same keys", closed under public derivation: if `StringWallet` imported the
+    extended public key w and `Child(w, i)` (i < 2³¹) returned w', then w'.String() is importable and imports to
+    exactly w'. (The finding's symptom was the opposite: an imported xpub whose child's own string was refused.)
+    Needs only the output lengths of the hash functions. -/
+theorem xpub_child_reimports (C : WalletCrypto) (s : Bytes) (w w' : HDWallet) (i : Nat)
+    (hsha : ∀ b, (C.shaHash b).length = 32) (hmac : ∀ k m, (C.hmac512 k m).length = 64)
+    (h160 : ∀ b, (C.hash160 b).length = 20)
+    (himp : stringWallet C s = .ok w) (hpub : isPublicPfx w.pfx = true) (hi : i < 2 ^ 31)
+    (h : child C w i = .ok w') : stringWallet C (HD.toString C w') = .ok w' := by
+  obtain ⟨hlen, _⟩ := xpub_import_is_curve_point C s w himp hpub
+  obtain ⟨P, Q, _, _, hkey, _, hparse⟩ := child_pub_result_is_point C w w' i hpub hlen hi h
+  have hshape := h
+  rw [child_pub_cases C w i hpub (public_not_private _ hpub) hlen hi] at hshape
+  have hf : w'.pfx = w.pfx ∧ w'.depth = (w.depth + 1) % 256 ∧ w'.checksum = (C.hash160 w.key).take 4 ∧ w'.idx = i ∧
+      w'.chCode = (C.hmac512 w.chCode (w.key ++ beBytes 4 i)).drop 32 := by
+    cases hP : Secp.parsePubkey w.key with
+    | none => rw [hP] at hshape; cases hshape
+    | some P' =>
+      rw [hP] at hshape
+      simp only [] at hshape
+      cases hQ' : Secp.add (Secp.mul (beVal ((C.hmac512 w.chCode (w.key ++ beBytes 4 i)).take 32)) Secp.G) (some P') with
+      | none => rw [hQ'] at hshape; cases hshape
+      | some Q' =>
+        rw [hQ'] at hshape
+        simp only [Except.ok.injEq] at hshape
+        rw [← hshape]; exact ⟨rfl, rfl, rfl, rfl, rfl⟩
+  obtain ⟨e1, e2, e3, e4, e5⟩ := hf
+  refine stringWallet_toString C w' ⟨Or.inr (by rw [e1]; exact hpub), by rw [e2]; exact Nat.mod_lt _ (by decide), ?_, ?_, ?_, ?_, ?_⟩ hsha
+    (b58RoundTrip_of_ne _ (by simp [serialize, serializeBody]))
+  · rw [e3]; simp [h160]
+  · rw [e4]; exact Nat.lt_trans hi (by decide)
+  · rw [e5]; simp [hmac]
+  · rw [hkey]; exact ser33_length Q
+  · intro _ hn; rw [hparse] at hn; cases hn
 
 /-! ### the wallet's path walk and key list -/
 
@@ -517,12 +615,57 @@ theorem address_is_signing_key (C : WalletCrypto) (c : Config) (keys : List KeyR
       (keys[j].h160 = keys[i].h160 ∨ segwitH160 C c keys[j] = keys[i].h160) :=
   hashToKeyIdx_spec C c keys i hi
 
-/-- Determinism, by construction: the key list is a function of (hash functions, configuration incl. the
-    `seed=` prefix, seed-file bytes) — equal inputs give equal wallets; nothing else (time, randomness,
-    environment) enters the model, and the harness checks the same of the real binary by running it twice. -/
-theorem deterministic (C : WalletCrypto) (c1 c2 : Config) (f1 f2 : Bytes) (hc : c1 = c2) (hf : f1 = f2) :
-    makeWallet C c1 f1 = makeWallet C c2 f2 := by
-  subst hc hf; rfl
+/-- The same for the P2SH-P2WPKH form (atype = segwit): `-dump <address>` / the signer look the key up by the
+    script hash HASH160(0014‖h160) that the listed address of key i carries (`segwitH160`); `hash_to_key_idx`
+    finds the first key j ≤ i that answers to that hash — as its P2SH hash or as its P2KH hash. -/
+theorem address_is_signing_key_p2sh (C : WalletCrypto) (c : Config) (keys : List KeyRec) (i : Nat) (hi : i < keys.length) :
+    ∃ j, ∃ hj : j < keys.length, j ≤ i ∧ hashToKeyIdx C c keys (segwitH160 C c keys[i]) = some j ∧
+      (keys[j].h160 = segwitH160 C c keys[i] ∨ segwitH160 C c keys[j] = segwitH160 C c keys[i]) :=
+  hashToKeyIdx_of_match C c keys _ i hi (Or.inr rfl)
+
+/-- … and for the taproot form (atype = tap): the 32-byte program of the listed address of key i is its x-only
+    public key (`address_is_listed_key`); `public_xo_to_key_idx` finds the first key j ≤ i with that x-only key. -/
+theorem address_is_signing_key_tap (keys : List KeyRec) (i : Nat) (hi : i < keys.length) :
+    ∃ j, ∃ hj : j < keys.length, j ≤ i ∧
+      publicXoToKeyIdx keys ((keys[i].pubkey.drop 1).take 32) = some j ∧
+      (keys[j].pubkey.drop 1).take 32 = (keys[i].pubkey.drop 1).take 32 :=
+  publicXoToKeyIdx_spec keys i hi
+
+/-- The dispatch of `address_to_key` on the parsed address, so that the three lookup theorems cover every form the
+    wallet lists: a Base58 address (P2KH, P2SH) is looked up by its 20-byte hash, a witness program of 20 bytes by
+    that program (the key hash), one of 32 bytes as an x-only key; any other program length ends the run. -/
+theorem address_lookup_dispatch (C : WalletCrypto) (c : Config) (keys : List KeyRec) (addr : Bytes) :
+    (∀ v h ck, Addr.fromString C.hashes addr = .ok (.b58 v h ck) →
+      addressToKeyIdx C c keys addr = some (hashToKeyIdx C c keys h)) ∧
+    (∀ hrp v prog, Addr.fromString C.hashes addr = .ok (.segwit hrp v prog) → prog.length = 20 →
+      addressToKeyIdx C c keys addr = some (hashToKeyIdx C c keys prog)) ∧
+    (∀ hrp v prog, Addr.fromString C.hashes addr = .ok (.segwit hrp v prog) → prog.length = 32 →
+      addressToKeyIdx C c keys addr = some (publicXoToKeyIdx keys prog)) := by
+  refine ⟨fun v h ck e => ?_, fun hrp v prog e hl => ?_, fun hrp v prog e hl => ?_⟩
+  · simp [addressToKeyIdx, e]
+  · simp [addressToKeyIdx, e, hl]
+  · simp [addressToKeyIdx, e, hl]
+
+/-- Determinism. That equal inputs give equal wallets is true BY CONSTRUCTION of a model that is a function
+    (that half is congruence and carries no content beyond "nothing else — time, randomness, environment — is an
+    input of the model"; the evidence that the real binary behaves so is the harness running it twice). The part
+    with content: scrypt, the one function the model treats as an opaque external oracle, is consulted at ONE
+    point only — (the password `getpass` returned, usescrypt), and not at all when usescrypt = 0 or bip39 = −1 or
+    the configuration is refused earlier. Two runs with equal configuration and seed file and ANY two scrypt oracles
+    that agree on that single point produce the same result (same error or same mnemonic, extended keys and key
+    records in the same order). The hash functions `C` are shared. `makeWallet C c f = makeWalletS C C.scrypt c
+    (getpass c f)` by definition. -/
+theorem deterministic (C : WalletCrypto) (sc1 sc2 : Bytes → Nat → Option Bytes) (c1 c2 : Config) (f1 f2 : Bytes)
+    (hc : c1 = c2) (hf : f1 = f2)
+    (hsc : ∀ p, getpass c1 f1 = some p → c1.usescrypt ≠ 0 → c1.bip39wrds ≠ -1 →
+      sc1 p c1.usescrypt = sc2 p c1.usescrypt) :
+    makeWalletS C sc1 c1 (getpass c1 f1) = makeWalletS C sc2 c2 (getpass c2 f2) := by
+  subst hc hf
+  exact makeWalletS_congr C sc1 sc2 c1 _ hsc
+
+/-- non-vacuity / the link to the executed definition: `makeWallet` IS `makeWalletS` with the structure's own
+    scrypt field, and two oracles that differ everywhere except at the queried point exist -/
+example (C : WalletCrypto) (c : Config) (f : Bytes) : makeWallet C c f = makeWalletS C C.scrypt c (getpass c f) := rfl
 
 /-- The password enters only through `getpass`: the `seed=` prefix followed by the first 1024 bytes of the
     seed file. -/
@@ -531,17 +674,38 @@ theorem getpass_spec (c : Config) (file : Bytes) (h : file ≠ []) :
   unfold getpass
   simp [h]
 
-/-- The interactive branch of `getpass`, stated outright: a typed session succeeds iff what was typed (one
-    terminal read, trailing control bytes dropped) is not empty and — in generation mode without `-1` — was
-    typed identically twice; the password handed to `make_wallet` is the `seed=` prefix followed by what was
-    typed; and the bytes saved to the seed file (generation mode, no `-p`, answer "y") are what was typed,
-    WITHOUT the prefix. -/
-theorem getpass_typed_spec (c : Config) (t : Typed) (out : Bytes) (sv : Option Bytes)
-    (h : getpassTyped c t = .ok (out, sv)) :
-    readPassword t.first ≠ [] ∧ out = c.secretSeed ++ readPassword t.first ∧
-    (t.genMode = true → t.singleAsk = false → readPassword t.second = readPassword t.first) ∧
-    sv = (if t.genMode ∧ !t.ask4pass ∧ t.save then some (readPassword t.first) else none) :=
-  getpassTyped_ok c t out sv h
+/-- The interactive branch of `getpass`, stated outright as an IFF: a typed session succeeds with password
+    `out` and saved bytes `sv` if and only if what was typed (one terminal read, trailing control bytes dropped)
+    is not empty, was — in generation mode without `-1` — typed identically twice, `out` is the `seed=` prefix
+    followed by what was typed, and `sv` (the bytes saved to the seed file: generation mode, no `-p`, answer "y")
+    is what was typed WITHOUT the prefix. -/
+theorem getpass_typed_spec (c : Config) (t : Typed) (out : Bytes) (sv : Option Bytes) :
+    getpassTyped c t = .ok (out, sv) ↔
+    (readPassword t.first ≠ [] ∧ out = c.secretSeed ++ readPassword t.first ∧
+     (t.genMode = true → t.singleAsk = false → readPassword t.second = readPassword t.first) ∧
+     sv = (if t.genMode ∧ !t.ask4pass ∧ t.save then some (readPassword t.first) else none)) := by
+  constructor
+  · exact getpassTyped_ok c t out sv
+  · rintro ⟨hne, rfl, hsame, rfl⟩
+    unfold getpassTyped
+    have h0 : ¬ (readPassword t.first).length = 0 := fun h => hne (List.eq_nil_of_length_eq_zero h)
+    have h1 : ¬ (t.genMode = true ∧ (!t.singleAsk) = true ∧ readPassword t.second ≠ readPassword t.first) := by
+      rintro ⟨hg, hs, hd⟩
+      exact hd (hsame hg (by simpa using hs))
+    simp only [h0, ↓reduceIte, h1]
+
+/-- the refusals of a typed session, exactly: nothing typed ⇒ "empty"; otherwise generation mode without `-1` and a
+    different second entry ⇒ "mismatch" -/
+theorem getpass_typed_refusals (c : Config) (t : Typed) :
+    (readPassword t.first = [] → getpassTyped c t = .error .empty) ∧
+    (readPassword t.first ≠ [] → t.genMode = true → t.singleAsk = false →
+      readPassword t.second ≠ readPassword t.first → getpassTyped c t = .error .mismatch) := by
+  constructor
+  · intro h; unfold getpassTyped; simp [h]
+  · intro hne hg hs hd
+    unfold getpassTyped
+    have h0 : ¬ (readPassword t.first).length = 0 := fun h => hne (List.eq_nil_of_length_eq_zero h)
+    simp [h0, hg, hs, hd]
 
 /-- "The same seed password and configuration produce the same ordered list of keys on every run", across the
     save-the-password path: if a typed session saved the file `f`, then the NEXT run (which finds `f` and goes
